@@ -48,16 +48,31 @@ impl OutputManager {
             })?;
         }
 
-        // Test write permissions by creating a temporary file
-        let test_file = self.output_dir.join(".write_test");
-        fs::write(&test_file, "test").map_err(|e| {
-            OutputError::PermissionDenied(format!(
-                "Cannot write to output directory {}: {}",
-                self.output_dir.display(),
-                e
-            ))
-        })?;
-        fs::remove_file(&test_file).ok(); // Ignore errors on cleanup
+        // Test write permissions by creating a temporary file. The probe never touches a file
+        // that is already there: the name is specific to this process and `create_new` refuses
+        // to open an existing file.
+        let test_file = self
+            .output_dir
+            .join(format!(".typegen_write_test_{}", std::process::id()));
+        match fs::OpenOptions::new()
+            .write(true)
+            .create_new(true)
+            .open(&test_file)
+        {
+            Ok(_) => {
+                fs::remove_file(&test_file).ok(); // Ignore errors on cleanup
+            }
+            Err(e) if e.kind() == std::io::ErrorKind::AlreadyExists => {
+                // Something else owns that name; the directory is evidently writable
+            }
+            Err(e) => {
+                return Err(OutputError::PermissionDenied(format!(
+                    "Cannot write to output directory {}: {}",
+                    self.output_dir.display(),
+                    e
+                )));
+            }
+        }
 
         Ok(())
     }
